@@ -42,7 +42,7 @@ add("C20", "exploration",
     "DESIGN.md 2/C20", "E4")
 
 add("C03", "exploration",
-    "The interpolant is linear in the data, so the responses to a complete one-hot basis determine the weight every cell receives at a coordinate: every extent vector up to the bound x every basis field (+3 non-affine patterns) x a per-axis alphabet of lattice points, cell faces and the last cell, "
+    "The interpolant is linear in the data, so the responses to a complete one-hot basis determine the weight every cell receives at a coordinate: every extent vector up to the bound x every basis field (+4 non-affine patterns, one with opposite-sign neighbours near the largest finite value) x a per-axis alphabet of lattice points, cell faces and the last cell, "
     "for N in 1..5 and M in 1..4 independently, float/double coordinates and storage, over strided/Morton/Hilbert and with a clamp beneath; binary128 reference with an operation-count error bound; exact equality at lattice points; range clause.",
     "dyadic coordinates only (weights exact); tolerance (2N+2^N+4)u; N=5 uses a cell-local basis at extent 3",
     "bounded-exhaustive enumeration (extents x data basis x coordinate alphabet) against a binary128 reference model, on the implementation",
@@ -75,7 +75,7 @@ add("C05", "model_checking",
     "explicit-state exploration of conversion sequences (states = layouts x contents, transitions = real conversions), all executed on the implementation",
     "DESIGN.md 2/C05", "E1+E3")
 add("C12", "model_checking",
-    "Explicit-state breadth-first search to fixpoint over operation histories (construct, write, copy/move construct, copy/move assign incl. self, convert, dump+load, destroy) on a pool of 2-4 slots and up to four field types; states are histories replayed on fresh objects and merged by a canonical form that keeps everything the property can observe plus the provenance of each buffer (hidden state such as the true allocation size differs between fresh and converted fields); "
+    "Explicit-state breadth-first search to fixpoint over operation histories (construct, write, copy/move construct, copy assign and move assign each incl. self-assignment, convert, dump+load, destroy) on a pool of 2-4 slots and up to four field types; states are histories replayed on fresh objects and merged by a canonical form that keeps everything the property can observe plus the provenance of each buffer (hidden state such as the true allocation size differs between fresh and converted fields); "
     "after every operation all live fields are compared with a plain array model (through a fresh view and through a view taken when the buffer was built), buffer aliasing is checked directly, and an allocation ledger / ASan+LSan judge leaks, double frees and use after free; an unmerged run of all short histories cross-checks the canonicalisation.",
     "small extents (<= 2 cells) and values 0..2; slots interchangeable; moved-from fields only assigned to or destroyed",
     "explicit-state BFS over operation histories with canonical-state de-duplication, every transition executed on the implementation against a reference model",
@@ -106,8 +106,8 @@ add("C02", "model_checking",
     "DESIGN.md 2/C02", "E3+E4")
 add("C17", "exploration",
     "For every generated stack (same grammar cover as C02 plus helper stacks of depth 1..10) built through the positional parameter-pack helper with pairwise distinct configuration values: the configuration reported after i get_backend() steps equals the i-th argument field by field, "
-    "and a field rebuilt recursively from the reported configurations and storage equals the original at every in-domain coordinate and in its dump bytes.",
-    "one configuration assignment per stack; rebuilt field compared on the C02 alphabet",
+    "and a field rebuilt recursively from the reported configurations and storage equals the original at every in-domain coordinate and in its dump bytes; a second assignment with extreme values in every blob (bounds beyond the extents beneath, reversed boxes, type extremes, -0.0, infinities, NaN) is read back bit for bit.",
+    "two configuration assignments per stack (pairwise distinct ordinary values with lookups; extreme / special values read back bit for bit without lookups); rebuilt field compared on the C02 alphabet",
     "bounded-exhaustive enumeration of stacks (grammar cover + depth 1..10 helper chains) with read-back / rebuild oracle on the implementation",
     "DESIGN.md 2/C17", "E3+E4")
 add("C06", "model_checking",
